@@ -92,6 +92,14 @@ def perturb_device(rng: random.Random, dev: dict):
             eo, en = old[c["id"]].get("eom") or {}, c.get("eom") or {}
             diffs += sorted("eom." + k for k in set(eo) | set(en) if eo.get(k) != en.get(k)) or ["eom"]
         real[c["id"]] = diffs
+    # the DMMs' own limits and timing
+    for d in new.get("dmms", []):
+        if rng.random() < 0.35:
+            p = rng.choice(["bottom_detuning", "total_bottom_detuning", "total_bottom_detuning", "clock_period", "min_duration"])
+            d[p] = {"bottom_detuning": rng.choice([None, -20.0, -6.0, -2.0]), "total_bottom_detuning": rng.choice([None, -40.0, -8.0, -3.0]),
+                    "clock_period": rng.choice([1, 4]), "min_duration": rng.choice([1, 16])}[p]
+            if d["bottom_detuning"] is not None and d["total_bottom_detuning"] is not None and d["bottom_detuning"] < d["total_bottom_detuning"]:
+                d["total_bottom_detuning"] = d["bottom_detuning"] * 2
     if rng.random() < 0.4:
         rng.shuffle(new["channels"])
     if rng.random() < 0.3:
@@ -434,13 +442,77 @@ def limits_of(seq, case):
                 avg = float(np.average(a))
                 if 0 < avg < ch.min_avg_amp * (1 - 1e-9):
                     bad("average-below-min", f"{name}: {avg} < {ch.min_avg_amp}")
+                dmap = getattr(cs, "detuning_map", None)
+                if dmap is not None:
+                    # a DMM: detuning never positive, never below the per-atom / total bottom detuning
+                    # given the weights of THIS channel's detuning map
+                    w = np.asarray(dmap.weights, dtype=float)
+                    dr = np.round(d, 6)
+                    if np.any(dr > 0):
+                        bad("dmm-positive-detuning", f"{name}: {dr.max()}")
+                    bot, tot = getattr(ch, "bottom_detuning", None), getattr(ch, "total_bottom_detuning", None)
+                    if bot is not None and w.max() * dr.min() < bot - 1e-9:
+                        bad("dmm-below-bottom", f"{name}: {w.max()} * {dr.min()} < {bot}")
+                    if tot is not None and w.sum() * dr.min() < tot - 1e-9:
+                        bad("dmm-below-total-bottom", f"{name}: {w.sum()} * {dr.min()} < {tot}")
             elif s.type == "delay" and s.tf - s.ti < ch.min_duration:
                 bad("delay-below-min", f"{name}: {s.tf - s.ti} < {ch.min_duration}")
     return v
 
 
+def register_limit_scenarios(tier, rng):
+    """non-strict switch to a device with tighter REGISTER limits (number of atoms, minimum distance,
+    maximum radius), for plain registers, registers defined from a layout and mappable registers:
+    the result satisfies the new device's limits or the call raises"""
+    import dataclasses
+    import itertools
+
+    from pulser import Register, Sequence
+    from pulser.devices import MockDevice
+    from pulser.register.special_layouts import SquareLatticeLayout
+
+    v = []
+    layout = SquareLatticeLayout(3, 3, 6)
+    regs = {
+        "plain": lambda: Register.from_coordinates([(0, 0), (6, 0), (12, 0), (0, 6), (6, 6)], prefix="q"),
+        "layout": lambda: layout.define_register(0, 1, 2, 3),
+        "layout-centre": lambda: layout.define_register(4, 3),
+        "mappable": lambda: layout.make_mappable_register(4),
+    }
+    limits = [dict(max_atom_num=3), dict(min_atom_distance=7.0), dict(max_radial_distance=5), dict(max_atom_num=4), dict(max_radial_distance=20)]
+    for (rname, mk), lim in itertools.product(regs.items(), limits):
+        case = dict(scenario="register-limits", register=rname, limits=lim)
+        with warnings.catch_warnings():
+            warnings.simplefilter("ignore")
+            try:
+                dev2 = dataclasses.replace(MockDevice, name="Tight", **lim)
+                seq = Sequence(mk(), MockDevice)
+                seq.declare_channel("g", "rydberg_global")
+                seq.add(Pulse.ConstantPulse(100, 1.0, 0.0, 0.0), "g")
+            except Exception as e:  # noqa: BLE001
+                v.append(Violation("register-limits:cannot-build-scenario", repr(e)[:200], case))
+                continue
+            try:
+                s2 = seq.switch_device(dev2, strict=False)
+                if rname == "mappable":
+                    s2 = s2.build(qubits={"q0": 0, "q1": 1, "q2": 2, "q3": 3})
+            except Exception:  # noqa: BLE001
+                continue  # "... or the call raises"
+            coords = np.array([np.asarray(c, dtype=float) for c in s2.register.qubits.values()], dtype=float)
+            n = len(coords)
+            dmin = min((float(np.linalg.norm(a - b)) for i, a in enumerate(coords) for b in coords[i + 1:]), default=np.inf)
+            rad = float(np.max(np.linalg.norm(coords, axis=1))) if n else 0.0
+            if "max_atom_num" in lim and n > lim["max_atom_num"]:
+                v.append(Violation("nonstrict-switch:register-too-many-atoms", f"{rname}: {n} atoms on a device with max_atom_num={lim['max_atom_num']}", case))
+            if "min_atom_distance" in lim and dmin < lim["min_atom_distance"] - 1e-6:
+                v.append(Violation("nonstrict-switch:register-atoms-too-close", f"{rname}: minimum distance {dmin} < {lim['min_atom_distance']}", case))
+            if "max_radial_distance" in lim and rad > lim["max_radial_distance"] + 1e-6:
+                v.append(Violation("nonstrict-switch:register-too-wide", f"{rname}: radius {rad} > {lim['max_radial_distance']}", case))
+    return v
+
+
 def _extra(self, tier, rng):
-    return parametrized_strict_scenarios(tier, rng)
+    return parametrized_strict_scenarios(tier, rng) + register_limit_scenarios(tier, rng)
 
 
 def _replay(self, payload):
@@ -449,6 +521,13 @@ def _replay(self, payload):
         import random
 
         viols = [x for x in parametrized_strict_scenarios("thorough", random.Random(0)) if x.signature == payload.get("signature") and x.case == case]
+        for x in viols:
+            print("REPRODUCED:", x.signature, "-", x.what)
+        return 1 if viols else 0
+    if isinstance(case, dict) and case.get("scenario") == "register-limits":
+        import random
+
+        viols = [x for x in register_limit_scenarios("thorough", random.Random(0)) if x.signature == payload.get("signature") and x.case == case]
         for x in viols:
             print("REPRODUCED:", x.signature, "-", x.what)
         return 1 if viols else 0
